@@ -154,6 +154,8 @@ def r2(ctx):
         ports = (ctx.repo.try_fold(m, kw.get("local_port")) if "local_port" in kw else None, ctx.repo.try_fold(m, kw.get("remote_port")) if "remote_port" in kw else None)
         ctx.check(ports == (s["port"], s["port"]), R, f"{gen}:CONFIG:ports", m, cfg, f"local and remote UDP port {s['port']}", str(ports))
         cls = "At4" if gen == "at4" else "At5"
+        if isinstance(kw.get("decoder"), ast.Name) and kw["decoder"].id in m.assign_nodes:
+            kw["decoder"] = m.get_const_expr(kw["decoder"].id)  # a module-level name for the decoder instance
         ok = dotted(kw.get("request_factory")) == f"{cls}DiscoveryRequest" and dotted(kw.get("response_type")) == f"{cls}DiscoveryResponse" and isinstance(kw.get("decoder"), ast.Call) and dotted(kw["decoder"].func) == f"{cls}DiscoveryDecoder"
         ctx.check(ok, R, f"{gen}:CONFIG:types", m, cfg, f"request {cls}DiscoveryRequest, response {cls}DiscoveryResponse, decoder {cls}DiscoveryDecoder()", norm_text(cfg)[:160])
         rq = m.get_class(f"{cls}DiscoveryRequest").methods.get("data")
@@ -383,7 +385,12 @@ def r4(ctx):
     ok = bool(tasks) and bool(it) and all(g.dominates(f.branch(t, "true").id, n.id) for t in it for n, _ in tasks)
     ctx.check(ok, R, "datagram_received:only-responses-forwarded", m, f.node, "only instances of the configured response type reach the callback (request echoes are dropped)", "unguarded")
     for n, c in tasks:
-        inner = [x for x in ast.walk(c) if isinstance(x, ast.Call) and dotted(x.func) == "self._callback"]
+        ce = c
+        if c.args and isinstance(c.args[0], ast.Name):
+            u = f.unique_def_value(c.args[0].id, n)  # an explaining local for the coroutine is read through
+            if u is not None and u[1] is not None:
+                ce = u[1]
+        inner = [x for x in ast.walk(ce) if isinstance(x, ast.Call) and dotted(x.func) == "self._callback"]
         v = n.ast.targets[0].id if isinstance(n.ast, ast.Assign) and isinstance(n.ast.targets[0], ast.Name) else None
         msgv = dec[0][0].ast.targets[0].id if dec and isinstance(dec[0][0].ast, ast.Assign) else None
         ctx.check(len(inner) == 1 and len(inner[0].args) == 1 and dotted(inner[0].args[0]) == msgv, R, "datagram_received:forwards-decoded-message", m, c, "the callback receives the decoded message", norm_text(c)[:100])
@@ -447,6 +454,10 @@ def r5(ctx):
     loops = [x for x in ast.walk(sf) if isinstance(x, (ast.For, ast.AsyncFor, ast.While))]
     inside = [r for lp_ in loops for r in ast.walk(lp_) if isinstance(r, (ast.Return, ast.Break))]
     ctx.check(bool(loops) and not inside, R, "_search:waits-for-every-discoverer", fm, (inside[0] if inside else sf), "the results of all discoverers are collected before returning (no return/break inside the collecting loop)", f"{type(inside[0]).__name__.lower()} inside the loop at line {inside[0].lineno}" if inside else "no loop")
+    # every search runs to its own end (three requests, each followed by its interval): no deadline is put on them from outside
+    # and none is cancelled - a console that answers only the last request is found in the last interval
+    cut = [x for x in ast.walk(sf) if isinstance(x, ast.Call) and ((dotted(x.func) or "") in ("asyncio.wait", "asyncio.wait_for", "asyncio.timeout", "asyncio.timeout_at") or (isinstance(x.func, ast.Attribute) and x.func.attr == "cancel"))]
+    ctx.check(not cut, R, "_search:no-deadline-on-the-searches", fm, (cut[0] if cut else sf), "_search neither times the searches out nor cancels one", f"`{norm_text(cut[0])[:70]}`" if cut else "")
     txt = norm_text(sf)
     ok = "at4_discovery.CONFIG" in txt and "at5_discovery.CONFIG" in txt and "remote_host=remote_host" in txt
     ctx.check(ok, R, "_search:both-configs", fm, sf, "both discovery configurations are searched, honouring remote_host", "a configuration is missing")
